@@ -17,16 +17,13 @@ import (
 func buildFlow(c *core.Ctx) *flow.Graph {
 	g := flow.Build(c.P.Funcs, c.P.InScope, c.P.CallGraph())
 	g.FlagRead = func(call *ssa.Call) ([]string, bool) {
-		cal := call.Call.StaticCallee()
-		for _, m := range []string{"String", "Int", "Bool", "IsSet"} {
-			if isCtxMethod(cal, m) && len(call.Call.Args) == 2 {
-				if names, ok := flagNames(c.P, call.Call.Args[1], 3); ok {
-					var out []string
-					for _, n := range names {
-						out = append(out, m+"("+n+")")
-					}
-					return out, true
+		if m, nameArg, ok := flagAccess(call); ok && (m == "String" || m == "Int" || m == "Bool" || m == "IsSet") {
+			if names, ok := flagNames(c.P, nameArg, 3); ok {
+				var out []string
+				for _, n := range names {
+					out = append(out, m+"("+n+")")
 				}
+				return out, true
 			}
 		}
 		return nil, false
